@@ -138,7 +138,7 @@ fn misfit(cls: &[Classified], reply: &[u8]) -> usize {
 
 pub async fn scenario() {
 	rt::expect_panic_marker(world::PANIC_MARKER);
-	let entry = *rt::pick("entry", &[Entry::Tower, Entry::Tower, Entry::LowLevel]);
+	let entry = *rt::pick("entry", &[Entry::Tower, Entry::Default, Entry::LowLevel, Entry::Default]);
 	let buf_cap = *rt::pick("buf_cap", &[1024u32, 1, 2, 4]);
 	let frag = match rt::draw("frag", 4) {
 		0 | 1 => Frag::default(),
@@ -154,6 +154,7 @@ pub async fn scenario() {
 	let presub = rt::chance("presub", 1, 2);
 	let n_batches = rt::draw_range("n_batches", 1, 2);
 	let mut world = World::new(SrvCfg { entry, buf_cap, frag, batch: batch_cfg, auto_sub: true, ..Default::default() });
+	world.start().await;
 	let mut nonce = 100u64;
 	let mut plans = Vec::new();
 	for _ in 0..n_batches {
